@@ -11,23 +11,23 @@ TEXT = {
             "§7 C01"),
     "C02": ("Lean theorem C02_graph_eq_general: for every table, string and flag combination the decoder model's graph equals the graph of Spec/Derivation.lean - an independent, executable rendering of derivation.rst (count-down budget, declarative symbol classes, bond-list molecule, second-pass ring formation) - and the error classes agree (C02_reject_iff), for every result other than RecursionError (finding F2). 45 documented examples are kernel-checked against the spec. Tie: the real decoder is compared on every string <= 3/4 symbols over 28 symbols under 4 tables, plus sampled streams, BOTH with the model and with the independent spec through the driver.",
             "§7 C02"),
-    "C03": ("Lean theorems C03_decode_encode / C03_roundtrip_graph and, at the level of strings, C03p_roundtrip_strings (every SMILES the strict encoder accepts; the parser is PROVED to establish the graph hypotheses: C03p_parser_pwf, C03p_parser_forest, C03p_kekulized_ready; remaining hypotheses: spans < 16^3, nesting depth < recursion budget, length <= 10^4300): for every parsed, kekulized graph that obeys the table, encoding then decoding yields the same atoms in the same order and the same bonded pairs with the same orders (SameMolecule), with each atom's neighbour order = ring bonds in formation order then chain bonds (C03_neighbour_order) - a theorem about graphs, i.e. about every spelling at once; staged versions C03_chain, C03_tree. Tie: correspondence of parser, kekulization (recorded tape), encoder, decoder on datasets, re-spellings (incl. ring digits behind branches), random trees, long spans; the independent reader judges the real round trip.",
+    "C03": ("Lean theorems C03_decode_encode / C03_roundtrip_graph and, at the level of strings, C03p_roundtrip_strings (every SMILES the strict encoder accepts; the parser is PROVED to establish the graph hypotheses: C03p_parser_pwf, C03p_parser_forest, C03p_kekulized_ready; remaining hypotheses: spans < 16^3, nesting depth < recursion budget, length <= 10^4300): for every parsed, kekulized graph that obeys the table, encoding then decoding yields the same atoms in the same order and the same bonded pairs with the same orders (SameMolecule), with each atom's neighbour order = ring bonds in formation order then chain bonds (C03_neighbour_order) - a theorem about graphs, i.e. about every spelling at once; staged versions C03_chain, C03_tree; C03s_roundtrip_parsed / C03s_bonds_iff: the same on the OUTPUT STRING (the library's parser reads decoder(encoder(s)) back with the same atoms and exactly the same bonds); C05e_aromatic_end_to_end for aromatic input. Tie: correspondence of parser, kekulization (recorded tape), encoder, decoder on datasets, re-spellings (incl. ring digits behind branches), random trees, long spans; the independent reader judges the real round trip.",
             "§7 C03"),
     "C04": ("Lean theorems C04_parity_spec / C04_parity_eq (the encoder's chirality flip is exactly the parity of the permutation between the written neighbour order and the decoder's order, for every graph), C04_inversions_parity (inversion count = transposition parity), C04_ring_marks / C04_chain_marks (every '/' '\\' mark is carried by the emitted symbol and read back on the right end; decide over the regenerated ring table). C04_end_to_end (string level): after encoder and decoder every atom's written neighbour order is the decoder order of its input row and its tag is flipped exactly when that permutation is odd.",
             "§7 C04"),
-    "C05": ("Lean theorems: C05_greedy_valid/_total, C05_flip_valid, C05_bfs_path_alternating, C05_augment_sound_partial (sound whenever every augmenting path found is simple), C05_bipartite_sound and C05_bipartite_complete / C05_bipartite_decides (on bipartite graphs - all rings even - the routine returns a perfect matching exactly when one exists, for every legal tape; via a constructive Berge walk and completeness of the BFS), C05_kekulize_complete_bipartite, C05_kekulize_sound (exact result of kekulize given a perfect matching: sigma skeleton unchanged, one double bond per kept atom), C05_prune_standard_kinds (28 atom kinds, decide); unconditional soundness is FALSE (C05_no_blossom_witness / C05_soundness_false, finding F9). Tie: find_perfect_matching vs the model on EVERY subcubic graph <= 6/7 vertices + random graphs to 30 vertices with the recorded tape, brute force; aromatic systems in many atom orders judged per spelling by the independent reader. Completeness and order independence are bounded search by design.",
+    "C05": ("Lean theorems: C05_greedy_valid/_total, C05_flip_valid, C05_bfs_path_alternating, C05_augment_sound_partial (sound whenever every augmenting path found is simple), C05_bipartite_sound and C05_bipartite_complete / C05_bipartite_decides (on bipartite graphs - all rings even - the routine returns a perfect matching exactly when one exists, for every legal tape; via a constructive Berge walk and completeness of the BFS), C05_kekulize_complete_bipartite, C05e_aromatic_end_to_end / C05e_rejects_without_kekule_structure / C05e_accepts_iff_kekule_structure_bipartite (the main clause end to end: decoder(encoder(s)) has the sigma skeleton, H and charges of s, every aromatic bond as 1 or 2, exactly one double bond at each atom that needs one and none at the others; EncoderError when no assignment exists, on bipartite systems), C05_kekulize_sound (exact result of kekulize given a perfect matching: sigma skeleton unchanged, one double bond per kept atom), C05_prune_standard_kinds (28 atom kinds, decide); unconditional soundness is FALSE (C05_no_blossom_witness / C05_soundness_false, finding F9). Tie: find_perfect_matching vs the model on EVERY subcubic graph <= 6/7 vertices + random graphs to 30 vertices with the recorded tape, brute force; aromatic systems in many atom orders judged per spelling by the independent reader. Completeness and order independence are bounded search by design.",
             "§7 C05"),
     "C06": ("Lean theorems C06_strict_iff / C06_strict_raises_iff (strict rejection <=> some atom's bond sum + explicit H exceeds its capacity, for every parse/kekulize result), C06_nonstrict_table_free (the non-strict result does not depend on the table), C06_strict_success_same_as_nonstrict, C06_capacity_key. Tie: correspondence of strict / non-strict encoding under changing tables on at/below/above-capacity molecules, sibling pairs differing only in explicit H, two-fragment combinations; independent bond count on the real code.",
             "§7 C06"),
     "C07": ("Lean theorems C07_alphabet_contents (exact membership + Nodup for every table), C07_structural_symbols_valid, C07_atom_symbols_valid_partial with the exact proviso C07_atom_symbol_accepted_iff (charge <= 4300 digits; finding F10), C07_no_error (every string of valid symbols decodes without DecoderError; from the C08 proofs), C01_valence (outputs obey the table), C07_reflects_current_table. Tie: alphabet of every generated accepted table vs the model and the documented contents; every returned symbol and random strings over it decoded on the real code and judged by the independent reader.",
             "§7 C07"),
-    "C08": ("Lean theorems C08_graph_total / C08_total_partial: for EVERY str, table and flag combination the decoder model returns, raises DecoderError, or raises RecursionError (deep nesting, finding F2) - every IndexError / KeyError / AttributeError / AssertionError / ValueError branch of the Python-semantics layer and fuel exhaustion (non-termination) are proved unreachable, for derivation, ring pass and writer; C08_no_recursion_error_if_shallow. Tie: exception class and result on malformed / arbitrary str x 4 flag combinations, and on table-dependent symbols decoded across a sequence of table changes, vs the model; constraint state compared before/after.",
+    "C08": ("Lean theorems C08_total (full strength, Props/C08t.lean; the API function with the repair of finding F2 = Model/Api.lean decoderApi): for EVERY str, table and flag combination selfies.decoder returns or raises DecoderError; from C08_graph_total / C08_total_partial for the body (returns, DecoderError, or RecursionError on deep nesting) - every IndexError / KeyError / AttributeError / AssertionError / ValueError branch of the Python-semantics layer and fuel exhaustion (non-termination) are proved unreachable, for derivation, ring pass and writer; C08_no_recursion_error_if_shallow. Tie: exception class and result on malformed / arbitrary str x 4 flag combinations, and on table-dependent symbols decoded across a sequence of table changes, vs the model; constraint state compared before/after.",
             "§7 C08"),
-    "C09": ("Lean theorems C09_parse_total (the parser returns a graph or SMILESParserError: no IndexError / AttributeError / AssertionError, fuel suffices), C09_kekulize_total, C09_matching_total (also downstream of a non-matching nothing but the documented outcomes is reachable), C09_emit_total, C09_total_partial: for EVERY str, table, flags and legal choice tape the encoder model returns, raises EncoderError, or raises RecursionError (deep nesting, finding F2: C09_recursionError_witness); C09_no_recursion_error_if_shallow. Tie: exception class and result on malformed / arbitrary str x 4 flag combinations vs the model, and the parser's graph itself (atoms, adjacency with placeholders, counts, delocalisation subgraph) vs the model's graph.",
+    "C09": ("Lean theorems C09_parse_total (the parser returns a graph or SMILESParserError: no IndexError / AttributeError / AssertionError, fuel suffices), C09_kekulize_total, C09_matching_total (also downstream of a non-matching nothing but the documented outcomes is reachable), C09_emit_total, C09_total (full strength, Props/C08t.lean, encoderApi with the repair of finding F2): for EVERY str, table, flags and legal choice tape selfies.encoder returns or raises EncoderError; from C09_total_partial for the body (a third alternative RecursionError on deep nesting: C09_recursionError_witness); C09_no_recursion_error_if_shallow. Tie: exception class and result on malformed / arbitrary str x 4 flag combinations vs the model, and the parser's graph itself (atoms, adjacency with placeholders, counts, delocalisation subgraph) vs the model's graph.",
             "§7 C09"),
     "C10": ("Lean theorems C10_atom_symbol_accepted (every atom the SMILES reader produces is spelled as a symbol the SELFIES reader maps back to the same atom and bond info, for all isotopes/charges/H counts/elements/prefixes, tokens up to 10^4300 characters), C10_standardised + the spelling families (sign runs, H/H1, leading zeros, atom class), C10_branch_ring_symbols_accepted (n < 16^3) and the limit C10_branch_ring_limit, C10_atom_symbol_dispatch; C10_reencode_stable: encoder(decoder(encoder(s))) = encoder(s) for every accepted SMILES (spans < 16^3, depth, length, <= 99 rings). Tie: structured families of bracket atoms through both readers vs the model; chain encoder -> decoder -> encoder on the real code.",
             "§7 C10"),
-    "C11": ("Lean theorems C11_cache_coherent / C11_capacity_pure: after ANY history of API calls, rejected updates, cache fills, LRU evictions and caller mutations, the capacity cache agrees with the current table, so what the translators read is a function of the current table only (induction over all operation lists). Tied to the code by random histories on fresh imports compared with the model and with fresh interpreters (several hash seeds).",
+    "C11": ("Lean theorems C11_cache_coherent / C11_capacity_pure: after ANY history of API calls, rejected updates, cache fills, LRU evictions and caller mutations, the capacity cache agrees with the current table, so what the translators read is a function of the current table only (induction over all operation lists); C11t_table_only_through_capacity (decoder / encoder depend on the table only through the capacity function; the non-strict encoder not at all), C11t_translators_pure, C11t_history_independent (two histories ending in the same table translate alike). get_bonding_capacity and Atom.bonding_capacity are re-translated from the source on every run and proved equal to the model (GenEq3). Tied to the code by random histories on fresh imports compared with the model and with fresh interpreters (several hash seeds).",
             "§7 C11"),
     "C12": ("Lean theorems over ALL histories (induction over operation lists on a state machine with object identity): C12_privacy_dicts, C12_presets_constant, C12_set_get, C12_reject_atomic, C12_validation (+ readable key grammar), C12_refines_value_map_partial; the full privacy statement is false for the returned alphabet (C12_alphabet_aliasing_witness, finding F7). Tied to the code by random histories with real mutation of real returned/passed objects on fresh imports.",
             "§7 C12"),
@@ -37,9 +37,9 @@ TEXT = {
             "§7 C14"),
     "C15": ("Lean theorems C15_label, C15_onehot_rows, C15_inverse_label, C15_inverse_onehot, C15_batch_pointwise, C15_batch_inverse, C15_errors for every vocabulary bijection, string over it and pad length. Tied by correspondence over generated vocabularies / strings / pads / enc_type values.",
             "§7 C15"),
-    "C16": ("Lean theorems C16_roundtrip (all n, unbounded), C16_horner, C16_shortest, C16_unknown_zero, C16_missing_zero, C16_three_symbols, C16_alphabet_documented (generated constant = table parsed from derivation.rst) + GenEq. Tied exhaustively: every n < 16^3 and every symbol triple on the real functions vs the model.",
+    "C16": ("Lean theorems C16_roundtrip (all n, unbounded), C16_horner, C16_shortest, C16_unknown_zero, C16_missing_zero, C16_three_symbols, C16_alphabet_documented (generated constant = table parsed from derivation.rst) + GenEq, GenEq2, GenEq4 (get_index_from_selfies, get_selfies_from_index, _read_index_from_selfies re-translated from the Python source on every run and proved equal to the model for all arguments, incl. termination of the digit loop). Tied exhaustively: every n < 16^3 and every symbol triple on the real functions vs the model.",
             "§7 C16"),
-    "C17": ("Lean theorems C17_decoder_same_string / C17_encoder_same_string (attribution never feeds back: erasure commutes with every phase), C17_output_index (every entry's token ends at the reported index, all fragments), C17_input_index(_compat) (every contributing token is the symbol at the reported position), C17_atom_attribution_partial + C17_stack_discipline (own symbol + branch symbols pushed by the enclosing calls), C17_every_atom_has_entry, C17_encoder_atoms. Tie: full attribution lists (decoder, encoder) vs the model and truthfulness oracles on the real code.",
+    "C17": ("Lean theorems C17_decoder_same_string / C17_encoder_same_string (attribution never feeds back: erasure commutes with every phase), C17_output_index (every entry's token ends at the reported index, all fragments), C17_input_index(_compat) (every contributing token is the symbol at the reported position), C17_atom_attribution_exact + C17_made_once (Props/C17x.lean: each atom carries EXACTLY the enclosing branch symbols, outermost first, then the atom symbol that made it, and every atom-making symbol makes exactly one atom; 'encloses' is defined on an attribution-free walk of the derivation whose spans are laminar, C17_spans_laminar, and which is Spec.derive with the molecule erased, C17_walk_is_spec_derive), C17_stack_discipline, C17_every_atom_has_entry, C17_encoder_atoms. Tie: full attribution lists (decoder, encoder) vs the model and truthfulness oracles on the real code.",
             "§7 C17"),
     "C18": ("Lean theorems C18_conservative, C18_commutes (string level, all strings, with attribution), C18_idempotent, C18_table_documented, C18_legacy_*_rejected_without_flag, C18_legacy_atoms. Tied by symbol-level correspondence of modernize_symbol on every legacy family and decoder correspondence with/without the flag.",
             "§7 C18"),
@@ -58,7 +58,7 @@ def main():
     for p in sorted(TEXT):
         e = T[p]
         proof = e.get("level") == "proof"
-        note = "Trusted: Lean 4.33 kernel (axioms propext, Classical.choice, Quot.sound only), the Lean compiler for the driver, the translator (gen_tables.py, py2lean.py), CPython 3.12 semantics as modelled in Py.lean. The algorithms are modelled by hand and tied by differential testing, not verified."
+        note = "Trusted: Lean 4.33 kernel (axioms propext, Classical.choice, Quot.sound only), the Lean compiler for the driver, the translator (gen_tables.py, py2lean.py: tables, the three state functions, the index code, the index reader and the capacity look-up are regenerated from the source on every run and proved equal to the hand model in Proofs/GenEq*.lean), CPython 3.12 semantics as modelled in Py.lean and Generated/PyRt.lean. The algorithms are modelled by hand and tied by differential testing, not verified."
         if e.get("not_proved"):
             note += " NOT proved: " + "; ".join(e["not_proved"])
         checks.append({
